@@ -93,12 +93,18 @@ def gen_checks(summary):
     ok, fails, log = lake_build(['blfdriver'])
     if not ok:
         return None, fails, log
-    out, rc, err = session(driver_exe(), ['regcheck'])
+    out, rc, err = session(driver_exe(), ['regcheck', 'tables'])
     res = {}
+    tables = {}
     if out and out[0].startswith('regcheck'):
         for tok in out[0].split()[1:]:
             n, v = tok.split('=')
             res[n] = (v == '1')
+    if len(out) > 1 and out[1].startswith('tables'):
+        for tok in out[1].split()[1:]:
+            n, v = tok.split('=')
+            tables[n] = {'inputsInit': v[0] == '1', 'arraysInit': v[1] == '1', 'allInit': v[2] == '1', 'ctorOk': v[3] == '1'}
+    summary['tables'] = tables
     nch = 1 + max([c['chunk'] for c in summary['classes']] or [0])
     for j in range(nch):
         t = 'import Blf.Gen.C%d\n/-! generated: per-class side conditions of `regular_sound`, decided by the kernel -/\nnamespace Blf.Gen\nopen Blf\n\n' % j
@@ -123,6 +129,14 @@ def gen_checks(summary):
             if ids:
                 smp = '(AppText, AppText_layout, AppText.fresh.setBuf %d [104, 101, 108, 108, 111])' % ids[0]
     t += 'def sample : Option (Codec × Layout × Obj) := ' + ('some ' + smp if smp else 'none') + '\n\n'
+    # classes outside the table-level obligations of C14/C17 (computed from the regenerated terms; the check
+    # compares them with known_findings.jsonl)
+    def lst(key):
+        return '[' + ', '.join('"%s"' % n for n in sorted(tables) if not tables[n][key]) + ']'
+    t += '/-- classes whose encoder reads a member without initialiser -/\ndef inputsNotInit : List String := ' + lst('inputsInit') + '\n'
+    t += '/-- classes with an array member without initialiser -/\ndef arraysNotInit : List String := ' + lst('arraysInit') + '\n'
+    t += '/-- classes with some member without initialiser -/\ndef notAllInit : List String := ' + lst('allInit') + '\n'
+    t += '/-- classes whose default constructor passes a type code the factory does not map back to them -/\ndef ctorMismatch : List String := ' + lst('ctorOk') + '\n\n'
     t += 'end Blf.Gen\n'
     write_if_changed(os.path.join(GEN, 'Exact.lean'), t)
     write_if_changed(os.path.join(GEN, 'Checks.lean'), 'import Blf.Gen.Exact\n')
